@@ -40,9 +40,9 @@ func OpenSSLVersion() string {
 }
 
 var (
-	osslDirOnce sync.Once
-	osslDir     string
-	osslPort    atomic.Int32
+	osslMu   sync.Mutex
+	osslDir  string
+	osslPort atomic.Int32
 )
 
 func pemOf(c tls.Certificate) (cert, key []byte, err error) {
@@ -57,32 +57,40 @@ func pemOf(c tls.Certificate) (cert, key []byte, err error) {
 	return cert, key, nil
 }
 
-// opensslFiles writes the fixture certificates once per process.
+// opensslFiles writes the fixture certificates (once; again after a cleanup).
 func opensslFiles() string {
-	osslDirOnce.Do(func() {
-		d, err := os.MkdirTemp("", "verif-openssl-")
+	osslMu.Lock()
+	defer osslMu.Unlock()
+	if osslDir != "" {
+		return osslDir
+	}
+	d, err := os.MkdirTemp("", "verif-openssl-")
+	if err != nil {
+		return ""
+	}
+	f := Fix()
+	for name, c := range map[string]tls.Certificate{"rsa": f.RSA, "ecdsa": f.ECDSA, "ed25519": f.Ed25519} {
+		cert, key, err := pemOf(c)
 		if err != nil {
-			return
+			return ""
 		}
-		f := Fix()
-		for name, c := range map[string]tls.Certificate{"rsa": f.RSA, "ecdsa": f.ECDSA, "ed25519": f.Ed25519} {
-			cert, key, err := pemOf(c)
-			if err != nil {
-				return
-			}
-			os.WriteFile(filepath.Join(d, name+".crt"), cert, 0o600)
-			os.WriteFile(filepath.Join(d, name+".key"), key, 0o600)
-		}
-		osslDir = d
+		os.WriteFile(filepath.Join(d, name+".crt"), cert, 0o600)
+		os.WriteFile(filepath.Join(d, name+".key"), key, 0o600)
+	}
+	osslDir = d
+	if osslPort.Load() == 0 {
 		osslPort.Store(int32(21000 + os.Getpid()%2000*4))
-	})
+	}
 	return osslDir
 }
 
 // OpenSSLCleanup removes the temporary certificate directory.
 func OpenSSLCleanup() {
+	osslMu.Lock()
+	defer osslMu.Unlock()
 	if osslDir != "" {
 		os.RemoveAll(osslDir)
+		osslDir = ""
 	}
 }
 
